@@ -1176,6 +1176,49 @@ fn run_keyed(ctl: &Arc<Ctl>, rng: &mut Rng_, ids: &mut Ids, out: &mut Out, n: us
             if let Err(e) = r {
                 out.ev("ShError", json!({"what": e}));
             }
+            // the same keyed exports next to a plain "decoy" shard whose chunk hashes share their 64-bit prefix with
+            // first chunks of the keyed models: the unkeyed collection (always asked first) has a table entry for the
+            // query's prefix that does not verify, and the answer must still come from the keyed collection
+            let mixd = tempfile::tempdir().unwrap();
+            for kp in &kpaths {
+                let _ = std::fs::copy(kp, mixd.path().join(kp.file_name().unwrap()));
+            }
+            let keyof = |j: usize| [pool.keys[0], pool.keys[1], zero, pool.keys[0], pool.keys[2 % pool.keys.len()]][j % 5];
+            let mut twins = vec![];
+            let mut musts: Vec<(String, Vec<MerkleHash>)> = vec![];
+            for (j, (mj, _)) in ms.iter().enumerate() {
+                if keyof(j) == zero {
+                    continue;
+                }
+                for x in &mj.xorbs {
+                    let first = x.chunks[0].2;
+                    let p = u64::from_le_bytes(hb(&first)[0..8].try_into().unwrap());
+                    twins.push((MerkleHash::from([p, rng.gen(), rng.gen(), rng.gen()]), rng.gen_range(1..500u32)));
+                    musts.push((mj.sid.clone(), x.chunks.iter().take(3).map(|c| c.2).collect()));
+                }
+            }
+            if !twins.is_empty() {
+                let decoy = Model {
+                    sid: format!("K{i}xdecoy"),
+                    xorbs: vec![XorbRec { h: MerkleHash::from([rng.gen(), rng.gen(), 7, 7]), chunks: twins.iter().map(|(t, l)| (*t, *l, *t)).collect() }],
+                    ..Default::default()
+                };
+                out.ev("ShBuild", model_json(ids, &decoy));
+                let _ = to_mem(&decoy).write_to_directory(mixd.path());
+                let r: Result<(), String> = rt.block_on(async {
+                    let md = ShardFileManager::new_in_session_directory(mixd.path()).await.map_err(|e| format!("{e:?}"))?;
+                    md.register_shards_by_path(&[mixd.path()]).await.map_err(|e| format!("{e:?}"))?;
+                    for (owner, q) in &musts {
+                        let qj: Vec<Value> = q.iter().map(|h| ids.h(h)).collect();
+                        let a = md.chunk_hash_dedup_query(q).await.map_err(|e| format!("{e:?}"))?;
+                        out.ev("ShDedupMust", json!({"owner": owner, "q": qj, "ans": ans_json(ids, &a)}));
+                    }
+                    Ok(())
+                });
+                if let Err(e) = r {
+                    out.ev("ShError", json!({"what": e}));
+                }
+            }
         }
         // expiry: all orderings of now against expiry and expiry + grace, at the exact boundaries
         let t0 = 1_000_000u64 + rng.gen_range(0..1000u64);
